@@ -25,6 +25,8 @@ EXPLANATION = (
     '__setitem__, update, setdefault, __ior__ and each inserts only through the whitelist test; (R7) every statement adding to '
     'Regions.regions is dominated by an isinstance(…, Region) test raising TypeError; (R8) RegionBoundingBox/RegionMask '
     'constructors raise before storing. Not decided: the precise set of exotic values np.isscalar accepts.')
+EXPLANATION_ADDED = (" Changes: plain setattr() is an ordinary (validated) store; (R5) enforcement on assignment is decided by evaluating `obj.field = NEW` through the repository descriptor's __set__ on a complete instance; (R6b) update/|= are all-or-nothing and setdefault follows the dict contract under the mapped key (partial evaluation); (R7) every list-adding method is evaluated with a non-region member (TypeError, list unchanged) and with regions (all stored), and list parameters are materialised before they are validated; (R9) Quantity-valued attributes are stored and handed out by value, so that a rejected augmented assignment leaves the region as it was.")
+EXPLANATION += EXPLANATION_ADDED
 TRUSTED = ['isinstance, np.isscalar, np.isfinite, Quantity.isscalar, unit.physical_type',
            'comparisons with NaN are False (IEEE)', 'data descriptors take precedence over the instance dict']
 ASSUMPTIONS = ['attribute assignment on a region goes through the class descriptors (no __setattr__ override in the package)']
